@@ -3,6 +3,7 @@ package c09
 import (
 	"encoding/json"
 	"fmt"
+	"strconv"
 	"strings"
 	"testing"
 
@@ -98,8 +99,43 @@ func TestProp(t *testing.T) {
 		s.Report(t, f)
 	})
 
+	run.Enum("capacity", "bodies whose compiled code sits at the instruction capacity (8192 per code block): a function `func capf() { -1+1+…+1 }` and a computed value `&capc = -1+1+…+1` with 4080..4100 terms, defined (when the VM accepts the definition), snapshot of the whole store, restore, then called / read on both VMs: same value or same error; every case is non-trivial (within 16 instructions of the capacity); distinct by form and term count",
+		func(s *rt.Section) {
+			s.Exhaustive = true
+			s.Bounds = "2 forms x term counts 4080..4100"
+			idx := 0
+			for k := 4080; k <= 4100; k++ {
+				for _, form := range []string{"func", "computed"} {
+					idx++
+					if idx%run.Env.NShards != run.Env.Shard {
+						continue
+					}
+					c := capacityCase(form, k)
+					s.Eval()
+					s.Crumb(c)
+					s.NonTrivial(rt.Hash(form, strconv.Itoa(k)))
+					f, _ := checkCase(c, s)
+					if f != nil && s.Report(nil, f) {
+						return
+					}
+				}
+			}
+		})
+
 	run.Enum("enum", "every value literal of container depth <= 2 over a fixed leaf alphabet (ints incl. the largest, floats, strings with quotes/control/Unicode, null, a function, a computed value with an attribute), arrays of 0..2 elements and dicts of 0..2 keys; ToJSON -> FromJSON structurally equal and re-encoded identically, alternating VMValue and ValueMap entry points; non-trivial = nesting >= 2 or holds a function/computed value; distinct by literal",
 		func(s *rt.Section) { enumerate(s, run) })
+}
+
+// capacityCase: a definition whose body has k "+1" terms behind a leading -1 (2k+2 instructions), then its use.
+func capacityCase(form string, k int) Case {
+	body := "-1" + strings.Repeat("+1", k)
+	c := Case{Cfg: vmx.Cfg{OpLimit: 200000, SeedHex: "000102030405060708090a0b0c0d0e0f"}, Cut: 1, Mode: "map"}
+	if form == "func" {
+		c.Segs = []string{"func capf() { " + body + " }", "capf()", "capf() + 1"}
+	} else {
+		c.Segs = []string{"&capc = " + body, "capc", "capc + 1"}
+	}
+	return c
 }
 
 // ---------------------------------------------------------------------------
